@@ -361,3 +361,63 @@ func VerifH11d() {
 	p.compareReads("H11d.after")
 	nd.Reach("H11d.end")
 }
+
+// VerifH11e: the server ends an upload before the client has sent it all. The handler of the
+// upload runs concurrently with the sending client (loop-back in concurrent mode); for an empty
+// key it returns right after the header, and gRPC answers the client's further Sends with io.EOF,
+// the verdict being available through CloseAndRecv. Whatever the interleaving, the gRPC client
+// reports the class the inline client reports (ErrEmptyKey), for every content size; a valid key
+// takes the same path and must succeed.
+func VerifH11e() {
+	P := 1
+	if nd.Tier() == 1 {
+		P = 2
+	}
+	nd.Bound("H11e.preemption_bound", P)
+	concreteCounter = true
+	p := &pair{keys: []string{"a"}}
+	cfg := stdConfig()
+	verifenv.Switch(0)
+	p.in, _ = openSeq(cfg)
+	verifenv.Switch(1)
+	var lc *loopClient
+	p.ex, _, lc = openExternal(cfg)
+	lc.concurrentUploads = true
+	key := []string{"", "a"}[nd.Choice("key", 2)]
+	val := nd.Bytes("val", []int{1, 2049, 4097}[nd.Choice("len", 3)])
+	api := nd.Choice("api", 3)
+	nd.SpawnRunsFirst(true)
+	a, b := both(func(side int) error {
+		if side == 1 {
+			nd.SetPreemptionBound(P)
+			defer nd.SetPreemptionBound(0)
+		}
+		st := p.store(side, -1)
+		switch api {
+		case 0:
+			return st.Set(ctx, key, val)
+		case 1:
+			return st.SetReader(ctx, key, bytes.NewReader(val))
+		}
+		f, err := st.Create(ctx, key)
+		if err != nil {
+			return err
+		}
+		_, werr := f.Write(val)
+		cerr := f.Close()
+		if werr != nil {
+			return werr
+		}
+		return cerr
+	})
+	nd.SpawnRunsFirst(false)
+	sameClass(a, b, "H11e.upload")
+	if key == "" {
+		nd.Assert(errors.Is(a, fs_db.ErrEmptyKey), "H11e.inline-rejects-empty-key")
+	} else {
+		nd.Assert(a == nil, "H11e.inline-accepts")
+	}
+	lc.concurrentUploads = false
+	p.compareReads("H11e.after")
+	nd.Reach("H11e.end")
+}
